@@ -15,4 +15,5 @@ import PvModel.Props.C04Count
 #print axioms Pv.C04_rel_conj_comm
 #print axioms Pv.C04_rel_alt_comm
 #print axioms Pv.C04_tree_answer_multiset
+#print axioms Pv.C04_tree_reorder_multiset
 #print axioms Pv.C04_answers_are_paths
